@@ -582,6 +582,12 @@ func (i *interpreter) appendVals(elemT types.Type, dst []value, src []value) []v
 		return ext
 	}
 	out := make([]value, n, growCap(cap(dst), n))
+	// spare capacity is zero memory in Go: code may re-slice into it
+	if spare := out[n:cap(out)]; len(spare) > 0 {
+		for k := range spare {
+			spare[k] = zero(elemT)
+		}
+	}
 	copy(out, dst)
 	for k := range src {
 		v := src[k]
